@@ -496,8 +496,20 @@ func (db *DB) getActiveFileWriteOff() (off int64, err error) {
 				break
 			}
 
-			// an entry that was being written when the process died: the log ends before it
+			// an entry that was being written when the process died: the log ends before it.
+			// Wipe it, so that it is not taken for a corrupt entry once this file is no longer
+			// the newest one (the next commit may not fit behind it and rotate the file).
 			if err == ErrCrc {
+				if off < db.opt.SegmentSize {
+					if _, werr := db.ActiveFile.WriteAt(make([]byte, db.opt.SegmentSize-off), off); werr != nil {
+						return -1, werr
+					}
+					if db.opt.SyncEnable {
+						if werr := db.ActiveFile.Sync(); werr != nil {
+							return -1, werr
+						}
+					}
+				}
 				break
 			}
 
